@@ -290,6 +290,14 @@ def wildmask_st(draw, kmax: int = 4, nc_only: bool = False):
     if not nc_only and draw(st.integers(0, 9)) < 5:
         plen = draw(st.one_of(st.integers(20, 32), st.integers(0, 32)))
         return (1 << (32 - plen)) - 1
+    if kmax >= 7 and draw(st.booleans()):
+        # a whole (or nearly whole) wild octet above a short contiguous run: 0.255.0.63, 0.1.255.7 ...
+        low = draw(st.integers(0, 7))
+        kk = draw(st.sampled_from([kmax - 1, kmax, kmax]))
+        shift = draw(st.sampled_from([8, 16])) if low < 8 else 16
+        if shift + kk > 32:
+            shift = 32 - kk
+        return ((1 << low) - 1) | (((1 << kk) - 1) << shift)
     low = draw(st.integers(0, 8))
     wild = (1 << low) - 1
     k = draw(st.integers(1, max(1, kmax)))
